@@ -15,6 +15,7 @@
 
 """Functions for manipulating the comment headers of files."""
 
+import itertools
 import logging
 import re
 from typing import NamedTuple, Optional, Sequence, Type, cast
@@ -231,6 +232,21 @@ def _find_first_spdx_comment(
             continue
         if "SPDX-SnippetBegin" in comment:
             continue
+        if "REUSE-IgnoreStart" in comment:
+            # The header ends where an ignore block begins: the marker must
+            # stay where it is. A multi-line comment cannot be cut in two.
+            if style.can_handle_multi() and comment.startswith(
+                style.MULTI_LINE.start
+            ):
+                continue
+            comment = "\n".join(
+                itertools.takewhile(
+                    lambda line: "REUSE-IgnoreStart" not in line,
+                    comment.split("\n"),
+                )
+            )
+            if not comment:
+                continue
         if contains_reuse_info(comment):
             return _TextSections(
                 text[:index], comment + "\n", text[index + len(comment) + 1 :]
